@@ -70,6 +70,7 @@ type ReturnPoint struct {
 }
 
 type Exec struct {
+	ibApps map[string][]ibApp
 	opaque   map[string]bool
 	rootOpts map[string]string // options of the contract of the function being verified
 	fnIdx  map[*ssa.Function]int
